@@ -1206,3 +1206,72 @@ Proof.
     + unfold dirty_of. rewrite U0, R0, M0. reflexivity.
   - intros j Hj. discriminate.
 Qed.
+
+(* ---------------------------------------------------------------- tagging job completion keeps the core invariant *)
+Lemma sxor_bounded nx a b : bounded nx a -> bounded nx b -> bounded nx (sxor a b).
+Proof.
+  intros A B i H. rewrite mem_sxor in H. destruct (mem i a) eqn:E; [apply A; exact E|]. apply B. destruct (mem i b); [reflexivity|discriminate].
+Qed.
+
+Lemma fold_union_bounded nx (f : N -> N) l : forall acc, bounded nx acc -> (forall x, In x l -> bounded nx (f x)) ->
+  bounded nx (fold_left (fun a r => union a (f r)) l acc).
+Proof.
+  intros acc A H i Hi. rewrite fold_union_mem in Hi. apply orb_true_iff in Hi. destruct Hi as [Hi|Hi]; [apply A; exact Hi|].
+  apply existsb_exists in Hi. destruct Hi as (x & I & M). exact (H x I i M).
+Qed.
+
+Lemma u1_bounded nx ts snap d : tags_bounded nx ts -> (forall x, bounded nx (lookupN x snap)) -> bounded nx (u1_of ts snap d (ones nx)).
+Proof.
+  intros TB SB. unfold u1_of. destruct (existsb _ _); [apply ones_bounded|].
+  apply fold_union_bounded; [apply bounded_0|]. intros x _. apply sxor_bounded; [apply tm_bounded; exact TB|apply SB].
+Qed.
+
+Lemma tb_tset nx n tp ts : tags_bounded nx ts -> bounded nx (t_u tp) -> bounded nx (t_m tp) -> tags_bounded nx (tset n tp ts).
+Proof.
+  intros TB BU BM k t I. destruct (In_tset _ _ _ _ _ I) as [(-> & ->)|(_ & I0)]; [split; assumption|exact (TB k t I0)].
+Qed.
+
+Lemma tcore_nojob st st' : Tcore st -> tags st' = tags st -> next st' = next st -> m_upd st' = m_upd st -> m_rst st' = m_rst st ->
+  m_add st' = m_add st -> jtag st' = None -> convs st' = convs st -> jconv st' = jconv st -> idx st' = idx st -> jmerge st' = jmerge st ->
+  jimp st' = jimp st -> Tcore st'.
+Proof.
+  intros (A1 & A2 & A3 & A4 & A5 & A6 & A7 & A8 & A9 & A10 & A11 & A12) F1 F2 F3 F4 F5 F6 F7 F8 F9 F10 F11.
+  unfold Tcore, tagjob_ok, convs_ok, mergejob_ok, impjob_t, resp_t. rewrite F1, F2, F3, F4, F5, F6, F7, F8, F9, F10, F11.
+  split; [exact A1|split; [exact A2|split; [exact A3|split; [exact A4|split; [exact A5|split; [exact A6|split; [exact A7|
+    split; [exact A8|split; [discriminate|split; [exact A10|split; [exact A11|exact A12]]]]]]]]]]].
+Qed.
+
+Lemma tcore_ctag st p n d m0 u0 cv snap h res : Tcore st -> jtag st = Some (mkTj n d m0 u0 cv snap h (Some res)) ->
+  Tcore (step repaired p (AComplete JTag) st).
+Proof.
+  intros TC J. rewrite (ctag_eq st p n d m0 u0 cv snap h res J). apply tcore_starts.
+  pose proof TC as (A1 & A2 & A3 & A4 & A5 & A6 & A7 & A8 & A9 & A10 & A11 & A12).
+  unfold ctag_pre. cbv zeta. change (tags (set_jtag st None)) with (tags st). change (all (set_jtag st None)) with (all st).
+  destruct (tget n (tags st)) as [ot|] eqn:Tn; [|apply (tcore_nojob st); auto].
+  destruct (defn_eqb (t_def ot) d) eqn:DE; [|apply (tcore_nojob st); auto].
+  apply defn_eqb_eq in DE. subst d.
+  destruct (A9 _ J) as (_ & _ & B3 & _ & _ & B6). simpl in B3, B6. specialize (B6 res eq_refl).
+  destruct (tget_In _ _ _ Tn) as (In_n & Ln).
+  set (tp := mkTag (t_def ot) res (u1_of (tags st) snap (t_def ot) (all st)) (t_conv ot)).
+  set (ts1 := tset n tp (tags st)).
+  assert (Forall2 same1 (tags st) ts1) as SM1.
+  { apply Forall2_tset; [intros; repeat split|]. intros k0 t0 I0 ->.
+    assert (t0 = ot) as -> by (eapply sorted_unique; eassumption). unfold same1; simpl; repeat split. exact Ln. }
+  assert (tags_bounded (next st) ts1) as TB1.
+  { apply tb_tset; [exact A4| |exact B6]. simpl. apply u1_bounded; assumption. }
+  assert (deadok ts1) as DK1 by (apply deadok_tset; [reflexivity|exact A3]).
+  set (ts2 := if dirty_of st then invalidate_tags repaired (all st) (m_upd st) (m_rst st) (m_add st) ts1 else inherit (all st) ts1).
+  assert (Forall2 (grow1 (next st)) ts1 ts2) as G.
+  { unfold ts2. destruct (dirty_of st); [apply grow_invalidate_tags|apply grow_inherit]. }
+  assert (u_bounded (next st) ts2) as UB2.
+  { unfold ts2, invalidate_tags, all. destruct (dirty_of st).
+    - apply u_bounded_inherit. apply (ub_map_inval repaired (next st)); try assumption; [apply N.le_refl|apply tags_u_bounded; exact TB1].
+    - apply u_bounded_inherit. apply tags_u_bounded. exact TB1. }
+  unfold Tcore, tagjob_ok, convs_ok, mergejob_ok, impjob_t, resp_t. simpl. fold tp. fold ts1. fold ts2.
+  split; [eapply sorted_same; [eapply Forall2_trans_same; [exact SM1|eapply grow_same; exact G]|exact A1]|
+  split; [eapply ranked_same; [eapply Forall2_trans_same; [exact SM1|eapply grow_same; exact G]|exact A2]|
+  split; [|split; [eapply tb_from; [apply N.le_refl|exact TB1|exact G|exact UB2]|
+  split; [exact A5|split; [exact A6|split; [exact A7|split; [|split; [discriminate|split; [exact A10|split; [exact A11|exact A12]]]]]]]]]]].
+  - unfold ts2, invalidate_tags. destruct (dirty_of st); [apply deadok_inherit, deadok_map_inval; exact DK1|apply deadok_inherit; exact DK1].
+  - unfold ts2, invalidate_tags, all. destruct (dirty_of st); apply closed_inherit.
+Qed.
